@@ -12,7 +12,8 @@ files, also shapes the write path never produces) are read through the overlay a
 with the model's read path.  Boundaries are observable steps: the full view is taken directly after every
 commit_patch + create_patch and after every close + reopen (by record name, by file list; random
 positions), and at the end of every history after the final commit and after reopening read-only
-both ways — nothing may change there (C01_boundary_invisible).  Oracle for the failing-input
+both ways — nothing may change there (C01_boundary_invisible).  Every observation also accesses
+every attribute name of the history BY KEY on every visible node (in / [] / get, present and absent).  Oracle for the failing-input
 search (no model involved): IH5Record vs. h5py.File in lock-step on the same history.
 """
 from __future__ import annotations
@@ -68,12 +69,136 @@ VALUES = ["i:0", "i:1", "i:7", "i:42", "i:-3", "v:00", "v:7f00", "v:417f", "v:de
 
 # ---------------------------------------------------------------------------- workers
 
+def attr_names(ops) -> List[str]:
+    """Every attribute name the history uses anywhere."""
+    return sorted({o[2] for o in ops if o[0] in ("aset", "adel")})
+
+
+def observe(root, names) -> List[Any]:
+    """The observation after a step: the enumerated tree (visititems + attrs.keys()) plus access BY KEY
+    to every attribute name of the history on every visible node (present and absent names):
+    `k in attrs`, `attrs[k]` / KeyError, `attrs.get(k)`.  Enumeration and access by key are separate code
+    paths in the overlay; an access that does not say what the enumeration of the same node says is
+    added to the view as a ["...@k", "BYKEY", in, getitem, get] entry (never present on a correct tree,
+    on h5py, or in the model view, whose attribute segments are looked up by key: vget)."""
+    view = ih5lib.dump_view(root)
+    if not names:
+        return view
+    present = {(tuple(e[0][:-1]), e[0][-1][1:]): e[2] for e in view if e[0][-1].startswith("@")}
+    extra = []
+    for p in [[]] + [e[0] for e in view if not e[0][-1].startswith("@")]:
+        am = (root[ih5lib._p(p)] if p else root).attrs
+        for k in names:
+            exp = present.get((tuple(p), k))
+            got = []
+            for probe in (lambda: k in am, lambda: ih5lib.enc(am[k]), lambda: (lambda g: "None" if g is None else ih5lib.enc(g))(am.get(k))):
+                try:
+                    got.append(probe())
+                except KeyError:
+                    got.append("KeyError")
+                except Exception as e:  # noqa: BLE001
+                    got.append(f"exc:{type(e).__name__}")
+            want = [True, exp, exp] if exp is not None else [False, "KeyError", "None"]
+            if got != want:
+                extra.append([p + ["@" + k], "BYKEY", str(got[0]), str(got[1]), str(got[2])])
+    return sorted(view + extra, key=lambda e: (e[0], e[1])) if extra else view
+
+
+def exec_ih5(ops, op_timeout=OP_TIMEOUT) -> Dict[str, Any]:
+    """ih5lib.exec_ih5 with final stages, observing with `observe` (by-key attribute access included)."""
+    from metador_core.ih5.container import IH5Record as cls
+    names = attr_names(ops)
+    steps: List[Any] = []
+    final: List[Any] = []
+
+    def read(r):
+        try:
+            with ih5lib.hard_time_limit(op_timeout):
+                return observe(r, names)
+        except vlib.CaseTimeout:
+            return ["READ-TIMEOUT"]
+        except Exception as e:  # noqa: BLE001
+            return ["READ-ERROR", f"{type(e).__name__}: {e}"[:200]]
+
+    with vlib.workdir("ih5") as d:
+        rec = cls(d / "rec", "w")
+        dead = None
+        try:
+            for op in ops:
+                if dead:
+                    steps.append(["X", dead])
+                    continue
+                try:
+                    with ih5lib.hard_time_limit(op_timeout):
+                        if op[0] == "bnd":
+                            rec.commit_patch()
+                            rec.create_patch()
+                        elif op[0] == "reopen":
+                            files = list(rec.ih5_files)
+                            rec.close()
+                            rec = cls(files if op[1] == "files" else d / "rec", "r+")
+                        else:
+                            ih5lib.apply_op(rec, op)
+                    res = "T"
+                except vlib.CaseTimeout:
+                    dead = "timeout"
+                    steps.append(["X", "timeout"])
+                    continue
+                except Exception as e:  # noqa: BLE001
+                    res = "F"
+                    err = f"{type(e).__name__}: {e}"[:200]
+                view = read(rec)
+                if view == ["READ-TIMEOUT"]:
+                    dead = "timeout-in-read"
+                    steps.append(["X", dead])
+                    continue
+                steps.append([res, view] if res == "T" else [res, view, err])
+            files = list(rec.ih5_files)
+            if not dead:
+                try:
+                    rec.commit_patch()
+                    final.append(["final-commit", read(rec)])
+                    rec.close()
+                    for stage, arg in (("reopen-by-name", d / "rec"), ("reopen-by-files", files)):
+                        rec = cls(arg, "r")
+                        final.append([stage, read(rec)])
+                        rec.close()
+                except Exception as e:  # noqa: BLE001
+                    final.append(["final-error", ["READ-ERROR", f"{type(e).__name__}: {e}"[:200]]])
+            rec.close()
+            raw = [ih5lib.dump_raw(f) for f in files] if not dead else None
+        finally:
+            try:
+                rec.close()
+            except Exception:  # noqa: BLE001
+                pass
+    return {"steps": steps, "raw": raw, "final": final}
+
+
+def exec_h5(ops) -> Dict[str, Any]:
+    """The same history on a plain h5py.File (boundaries and reopens do nothing), same observation."""
+    import h5py
+    names = attr_names(ops)
+    steps = []
+    with vlib.workdir("h5") as d:
+        with h5py.File(d / "plain.h5", "w") as f:
+            for op in ops:
+                res = "T"
+                if op[0] not in ("bnd", "reopen"):
+                    try:
+                        ih5lib.apply_op(f, op)
+                    except Exception:  # noqa: BLE001
+                        res = "F"
+                steps.append([res, observe(f, names)])
+    return {"steps": steps}
+
+
 def _both(ops, op_timeout):
     try:
-        a = ih5lib.exec_ih5(ops, op_timeout=op_timeout, final_stages=True)
+        a = exec_ih5(ops, op_timeout=op_timeout)
     except Exception as e:  # noqa: BLE001
         a = {"steps": [["H", f"harness: {type(e).__name__}: {e}"[:200]]] * max(1, len(ops)), "raw": None, "final": []}
-    b = ih5lib.exec_h5(ops)
+    b = exec_h5(ops)
     return a, b
 
 
@@ -106,6 +231,8 @@ def first_diff(ih5, h5) -> Optional[Dict[str, Any]]:
             only_h = [e for e in t[1] if e not in s[1]][:3]
             cls = "resurrected" if only_i and not only_h else ("hidden" if only_h and not only_i else "tree")
             after = " although the plain tree did not change in this step (boundary / reopen)" if s[0] == "T" and _is_bnd_view(ih5, h5, i) else ""
+            if any(len(e) > 1 and e[1] == "BYKEY" for e in only_i):
+                after = ": attribute access by key (in / [] / get) does not match the enumeration of the same node"
             return {"step": i, "cls": cls, "what": "tree differs from plain HDF5" + after, "only_in_ih5": only_i, "only_in_h5": only_h}
     # the committed, closed and reopened record (by name, by file list) must show the same tree
     last = h5["steps"][-1][1] if h5["steps"] else []
@@ -255,6 +382,23 @@ def model_ops(ops):
     return [["bnd"] if o[0] == "reopen" else o for o in ops]
 
 
+def attr_bykey_patterns() -> List[List[Any]]:
+    """Fixed shapes: a node with attributes is deleted and re-created at the same path in a later container
+    without them (same kind / other kind; group, dataset, child of the root, deeper); then the attributes
+    are accessed by key on the new node (observation of every step) and deleted by key (must be refused)."""
+    H = []
+    H.append([["set", ["d"], "i:1"], ["aset", ["d"], "k", "i:7"], ["bnd"], ["del", ["d"]], ["set", ["d"], "i:2"], ["adel", ["d"], "k"]])
+    H.append([["grp", ["g"]], ["aset", ["g"], "k", "i:7"], ["aset", ["g"], "m", "i:8"], ["bnd"], ["del", ["g"]], ["grp", ["g"]],
+              ["aset", ["g"], "m", "i:9"], ["bnd"], ["adel", ["g"], "k"], ["adel", ["g"], "m"], ["adel", ["g"], "m"]])
+    H.append([["set", ["a", "d"], "i:1"], ["aset", ["a", "d"], "k", "i:7"], ["reopen", "name"], ["del", ["a", "d"]], ["bnd"],
+              ["grp", ["a", "d"]], ["bnd"], ["adel", ["a", "d"], "k"], ["aset", ["a", "d"], "k", "i:1"], ["adel", ["a", "d"], "k"]])
+    H.append([["grp", ["a", "g"]], ["aset", ["a", "g"], "k", "i:7"], ["aset", ["a"], "k", "i:6"], ["bnd"], ["del", ["a"]],
+              ["set", ["a", "g"], "i:3"], ["bnd"], ["adel", ["a", "g"], "k"], ["adel", ["a"], "k"]])
+    H.append([["set", ["d"], "i:1"], ["aset", ["d"], "k", "i:7"], ["bnd"], ["aset", ["d"], "m", "i:8"], ["bnd"], ["del", ["d"]],
+              ["set", ["d"], "i:2"], ["reopen", "files"], ["adel", ["d"], "m"], ["adel", ["d"], "k"]])
+    return H
+
+
 def boundary_patterns() -> List[List[Any]]:
     """Fixed shapes: a node re-created under a replaced group at a path older containers know, sealed at once."""
     H = []
@@ -275,7 +419,7 @@ def targeted(rng, keys, attr_keys) -> List[Any]:
     val = lambda: rng.choice(VALUES)  # noqa: E731
     ak = lambda: rng.choice(attr_keys)  # noqa: E731
     mb = lambda p=0.6: [["bnd"]] if rng.random() < p else []  # noqa: E731
-    shape = rng.randrange(7)
+    shape = rng.randrange(9)
     H: List[Any] = []
     if shape == 0:      # replace-then-touch chain across >= 3 containers
         H += [["set", [k[0], k[1]], val()]]
@@ -318,6 +462,26 @@ def targeted(rng, keys, attr_keys) -> List[Any]:
             H += [["copy", par[:rng.randint(1, len(par))], [k[4], k[0]] if rng.random() < 0.5 else [k[4]]]]
         else:
             H += [["grp", [k[4], k[2]]]]
+    elif shape >= 7:    # node with attributes deleted and re-created without (all of) them; attributes then used by key
+        bb = lambda: [rng.choice([["bnd"], ["bnd"], ["reopen", "name"], ["reopen", "files"]])]  # noqa: E731
+        P = rng.choice([[k[0]], [k[0]], [k[0], k[1]], [k[0], k[1], k[2]]])
+        a1, a2 = (attr_keys + attr_keys)[:2]
+        mk = lambda kind: [["grp", P]] if kind == "G" else [["set", P, val()]]  # noqa: E731
+        kind1 = rng.choice("GD")
+        kind2 = kind1 if rng.random() < 0.6 else ("D" if kind1 == "G" else "G")
+        H += mk(kind1) + [["aset", P, a1, val()]]
+        if a2 != a1 and rng.random() < 0.6:
+            H += [["aset", P, a2, val()]]
+        if len(P) > 1 and rng.random() < 0.3:
+            H += [["aset", P[:-1], a1, val()]]
+        H += bb() + (bb() if rng.random() < 0.3 else [])
+        H += [["del", rng.choice([P, P, P[:1]])]] + (bb() if rng.random() < 0.4 else [])
+        H += mk(kind2)
+        if a2 != a1 and rng.random() < 0.4:
+            H += [["aset", P, a2, val()]]
+        H += bb() if rng.random() < 0.6 else []
+        tail = [["adel", P, a1], ["adel", P, a2], ["aset", P, a1, val()], ["adel", P, a1]]
+        H += tail[:rng.randint(1, 4)] if rng.random() < 0.7 else [["adel", P, a2], ["adel", P, a1]]
     elif shape >= 5:    # node re-created under a replaced / deleted ancestor at a path older containers know, sealed at once
         bb = lambda: [rng.choice([["bnd"], ["bnd"], ["reopen", "name"], ["reopen", "files"]])]  # noqa: E731
         H += [["set", [k[0], k[1], k[2]], val()]]
@@ -344,7 +508,7 @@ def targeted(rng, keys, attr_keys) -> List[Any]:
 
 def gen_cases(ctx) -> List[List[Any]]:
     rng = ctx.rng
-    cases = list(ih5lib.pattern_histories()) + prefix_patterns() + boundary_patterns()
+    cases = list(ih5lib.pattern_histories()) + prefix_patterns() + boundary_patterns() + attr_bykey_patterns()
     ntarget = ctx.budget(120, 2000)
     nrand = ctx.budget(260, 4500)
     maxops = ctx.budget(20, 36)
